@@ -96,7 +96,8 @@ def cfg():
 
 
 PLACES = ("guard", "invariant", "invariant-urgent", "invariant-committed", "invariant-second-template",
-          "guard-into-branchpoint", "guard-out-of-branchpoint", "guard-with-select-and-sync", "guard-as-cdata", "invariant-as-split-cdata", "invariant-with-rate", "invariant-after-rate-label")
+          "guard-into-branchpoint", "guard-out-of-branchpoint", "guard-with-select-and-sync", "guard-as-cdata", "invariant-as-split-cdata", "invariant-with-rate", "invariant-after-rate-label",
+          "guard-in-unused-template", "invariant-in-unused-template", "guard-in-dynamic-template", "invariant-in-dynamic-template")
 
 
 def model(place, text):
@@ -132,6 +133,14 @@ def model(place, text):
         return xmlgen.nta(DECL, [t], "P = T(); system P;")
     if place == "guard-with-select-and-sync":
         return xmlgen.simple_model(decl=DECL + " broadcast chan zc[2];", select="zs : int[0,1]", sync="zc[zs]!", guard=text, assign="i = zs")
+    if place in ("guard-in-unused-template", "invariant-in-unused-template", "guard-in-dynamic-template", "invariant-in-dynamic-template"):
+        # a template that the system line does not name: defined and never instantiated, or instantiated at run time by `spawn`
+        guard, dyn = place.startswith("guard"), "dynamic" in place
+        u = xmlgen.template("U", locations=[xmlgen.location("id7", "M0", inv=None if guard else text), xmlgen.location("id8", "M1")], init="id7",
+                            transitions=[xmlgen.transition("id7", "id8", guard=text if guard else None)])
+        t = xmlgen.template("T", locations=[xmlgen.location("id0", "L0"), xmlgen.location("id1", "L1")], init="id0",
+                            transitions=[xmlgen.transition("id0", "id1", assign="spawn U()" if dyn else "i = 1")])
+        return xmlgen.nta(("dynamic U(); " if dyn else "") + DECL, [u, t] if dyn else [t, u], "system T;")
     if place == "invariant-second-template":
         t2 = xmlgen.template("U", locations=[xmlgen.location("id7", "M0"), xmlgen.location("id8", "M1", inv=text)], init="id7",
                              transitions=[xmlgen.transition("id7", "id8")])
@@ -162,7 +171,8 @@ def run_shard(shard):
     places = PLACES if depth <= 3 else PLACES[:2]
     if depth == 3 and engine.tier() != "thorough":
         # quick: the depth-3 enumeration on one placement of each kind; all placements get the depth-2 sweep over the 20 atom spellings
-        places = ("guard", "invariant", "invariant-urgent", "invariant-second-template", "guard-into-branchpoint", "guard-as-cdata", "invariant-with-rate")
+        places = ("guard", "invariant", "invariant-urgent", "invariant-second-template", "guard-into-branchpoint", "guard-as-cdata", "invariant-with-rate",
+                  "invariant-in-unused-template", "guard-in-dynamic-template")
     for place in places:
         docs = [model(place, it[0]) for it in items]
         res = xmlgen.run_docs(w, docs, want=["noinv"], batch=200)
